@@ -1011,7 +1011,11 @@ impl CompositionGraph {
             })
             .collect::<Vec<_>>()
         {
-            self.remove_node(node);
+            // A dependant may already have been removed by an earlier
+            // recursive call (e.g. a type depending on two removed types).
+            if self.graph.contains_node(node.0) {
+                self.remove_node(node);
+            }
         }
 
         // Remove the node from the graph
